@@ -86,10 +86,14 @@ func (s *kState) FindView(h uint64, r uint32, reason string) (*tmconsensus.Versi
 		return nil, 0, ViewFuture
 	}
 
-	panic(fmt.Errorf(
-		"TODO: unhandled attempt to find view (reason: %s, request: %d/%d, voting view: %d/%d, committing view: %d/%d)",
-		reason, h, r, s.Voting.Height, s.Voting.Round, s.Committing.Height, s.Committing.Round,
-	))
+	if h == s.Committing.Height {
+		// The remaining case for the committing height is a round beyond the committing round.
+		return nil, 0, ViewWrongCommit
+	}
+
+	// Otherwise the mirror has no committing view yet
+	// and the height is below the voting height, i.e. below the initial height.
+	return nil, 0, ViewBeforeCommitting
 }
 
 // MarkCommittingViewUpdated increments the version of s's committing view,
